@@ -181,6 +181,7 @@ def run(tier):
             "nan_only_memory_differences_tolerated": sum(1 for r in results if r.get("nan_only_memory_difference")),
             "traces_validated_against_impl": stats["calls_compared"],
         })
+        numeric_ub_search(chk, env.repo, d, tier, pr, broken)
     if stats["errors"]:
         chk.notes.append({"tool_errors": stats["errors"][:10]})
         if len(stats["errors"]) > max(3, len(results) // 20):
@@ -197,8 +198,63 @@ def run(tier):
     return chk.finish()
 
 
+OPS_BUILDS = {"quick": [("gcc", ("-O1",)), ("clang", ("-O2",))],
+              "thorough": [("gcc", ("-O0",)), ("gcc", ("-O2",)), ("clang", ("-O0",)), ("clang", ("-O3",))]}
+UBSAN = ("-fsanitize=undefined,float-cast-overflow", "-fno-sanitize-recover=all")   # float division by zero is defined (IEC 60559, Annex F)
+
+
+def numeric_ub_search(chk, repo, d, tier, pr, broken):
+    """Every numeric opcode through the whole pipeline (real w2c2 -> C -> gcc/clang with UBSan, trapping on the first
+    report) on the boundary operands of its types (INT_MIN / -1, shift counts >= width, ±2^31, ±2^63, NaN, ±inf, …)
+    plus random ones: a sanitizer abort, a crash, or an answer different from `Spec.numOp` is a failing input for
+    the numeric part of C11 (Props/C11Ops)."""
+    import os
+    import c01
+    import opmods
+    import runtime_ops as ro
+    nops = opmods.numeric_ops()
+    ecases = c01.e2e_cases(chk.rng, nops, 30 if tier == "quick" else 300)
+    elines = [opmods.line_for(o, v) for o, v in ecases]
+    espec = vlib.DriverProc().batch([opmods.spec_line_for(o, v) for o, v in ecases]) if pr["driver_ok"] else None
+    ran = 0
+    for cc, copts in OPS_BUILDS[tier]:
+        wd = os.path.join(d, "ops_%s_%s" % (cc, "".join(c for c in "".join(copts) if c.isalnum())))
+        os.makedirs(wd, exist_ok=True)
+        try:
+            exe, _ = opmods.build_harness(repo, wd, nops, cc=cc, copts=tuple(copts) + UBSAN)
+        except Exception as e:
+            broken.append({"kind": "e2e-build", "msg": "opcode module, %s %s: %s" % (cc, " ".join(copts), str(e)[-800:])})
+            continue
+        real = ro.run_lines(exe, elines)
+        for i, (op, vals) in enumerate(ecases):
+            ran += 1
+            bad = real[i].startswith("crash") or (espec is not None and not ro.same_result(real[i], espec[i]))
+            chk.count_case(("ops-ubsan", cc, copts, op[0], vals), True, None)
+            if bad:
+                chk.violation("%s-ubsan-%s" % (op[1], "crash" if real[i].startswith("crash") else "differs"),
+                              "%s on %s: output of the real w2c2 compiled by %s %s with UBSan answers `%s`, the specification requires `%s`"
+                              % (op[1], " ".join("%s:%x" % (t, v) for t, v in zip(op[2], vals)), cc, " ".join(copts), real[i], espec[i] if espec else "?"),
+                              {"opsline": elines[i], "cc": cc, "copts": list(copts), "real": real[i], "spec": espec[i] if espec else None}, True)
+    chk.coverage["numeric_opcode_ubsan_cases"] = ran
+    chk.coverage["numeric_opcode_ubsan_builds"] = ["%s %s" % (cc, " ".join(co)) for cc, co in OPS_BUILDS[tier]]
+
+
+def replay_opsline(r):
+    import os
+    import opmods
+    import runtime_ops as ro
+    with vlib.scratch("c11r-") as d:
+        repo = vlib.copy_repo(os.path.join(d, "repo"))
+        exe, _ = opmods.build_harness(repo, d, opmods.numeric_ops(), cc=r["cc"], copts=tuple(r["copts"]) + UBSAN)
+        out = ro.run_lines(exe, [r["opsline"]])[0]
+    print("replay `%s` (%s %s + UBSan): real `%s` specification `%s`" % (r["opsline"], r["cc"], " ".join(r["copts"]), out, r["spec"]))
+    return 1 if out.startswith("crash") or (r["spec"] is not None and not ro.same_result(out, r["spec"])) else 0
+
+
 def replay(path):
     r = json.load(open(path))
+    if "opsline" in r:
+        return replay_opsline(r)
     if "spec" not in r:
         print("replay: no module in this file: %r" % (r.get("broken"),))
         return 1
